@@ -73,12 +73,20 @@ def observe(job):
          'back_ok': True, 'is_pipeline': is_pipeline, 'neginf': bool(neginf)}
   try:
     w = factory()
+    if len(job) > 5 and job[5]:
+      # two warpers made by the same factory are independent objects: another one, warping other data in between, must
+      # not disturb this one (checked through the inverse below)
+      other = factory()
+    else:
+      other = None
     if reuse:
       # the designers keep ONE warper object and call it again as data arrives: first the two worst observed values ...
       obs_idx = [i for i, r in enumerate(ranks) if r != 0]
       two = sorted(obs_idx, key=lambda i: x[i, 0])[:2]
       w.warp(x[two].copy())
     y = np.asarray(w.warp(x))
+    if other is not None:
+      other.warp(np.array([[-100.0], [-200.0], [1.0], [5.0], [7.5]]))
   except Exception as e:  # pylint: disable=broad-except
     rec['refused'] = True
     rec['error'] = '%s: %s' % (type(e).__name__, str(e)[:100])
@@ -133,6 +141,22 @@ def run(ctx):
           # ... then the whole array, on the same instance (pipelines and their stateful components)
           if pname in ('default', 'warp_outliers', 'LogWarper', 'HalfRank') and sum(1 for r in ranks if r) >= 3 and max(ranks) >= 3:
             jobs.append((ranks, pal, pname, True))
+    # a second warper made by the same factory and used in between (pipelines with an inverse)
+    for ranks in orders:
+      if 0 not in ranks and max(ranks) >= 2 and len(ranks) >= 3:
+        jobs.append((ranks, rng.choice(list(PALETTES)), 'default', False, False, True))
+    # studies of realistic size (the enumeration stops at n = max_n): saturating metrics, many ties, a few outliers
+    big = [[9] * 12 + list(range(1, 9)), [1] * 12 + list(range(2, 10)), list(range(1, 21)), [5] * 10 + [0] * 3 + [1, 2, 3, 4, 6, 7, 8],
+           [3] * 16 + [1, 2], [1, 2] + [3] * 14 + [0, 0], list(range(1, 16)) + [15] * 5]
+    for ranks in big:
+      dense = sorted(set(r for r in ranks if r))
+      ranks = tuple(0 if r == 0 else dense.index(r) + 1 for r in ranks)
+      for pname in pipelines():
+        # (the palette 'wide' spans 10^(2 x rank) and would cover 38 orders of magnitude here: beyond what a double resolves)
+        for pal in rng.sample([q for q in PALETTES if q != 'wide'], 3):
+          jobs.append((ranks, pal, pname))
+          if 0 in ranks:
+            jobs.append((ranks, pal, pname, False, True))
     with cf.ProcessPoolExecutor(max_workers=16, mp_context=multiprocessing.get_context('fork')) as ex:
       obs = [o for o in ex.map(observe, jobs, chunksize=64) if o is not None]
     path = os.path.join(d, 'w_obs.json')
